@@ -115,6 +115,12 @@ func (f *FileBackend) writeLoop() {
 	dest, err := OpenRotateFile(f.File, f.Mode, f.MaxSize)
 	if err != nil {
 		log.Errorf("Failed create destination file: %s", err)
+
+		// keep accepting (and dropping) events: senders block on the request
+		// channel forever once nobody reads it
+		for range f.request {
+		}
+
 		return
 	}
 
